@@ -2,11 +2,16 @@
 import vlib
 from vlib import hx, unhx
 
-RULE = ("sequences of <=12 rule operations (add / replace / identical re-add / delete / deleteAll, incl. the empty id and the "
-        "reserved id 'deleteAll'), broadcasts on feed and plain topics from an outside sender or 'as' a destination, messages "
-        "coming in from destinations, destinations dropping connections / going down (thorough: coming up again), over <=5 ids, "
+RULE = ("sequences of <=12 rule operations (add / replace / identical re-add / delete / deleteAll / delete of the k-th id of the "
+        "implementation's own listing, incl. the empty id, the reserved id 'deleteAll' and 1-3 NEAR-reserved / unusual ids per case: "
+        "the reserved id with leading/trailing blanks, tabs, newlines, NBSP, a leading or trailing '/', other case, one letter "
+        "off, NUL / zero-width / homoglyph / percent-encoded variants; ids differing from another id of the case (the empty id "
+        "included) only by surrounding whitespace, a leading '/' or case; ids with '/', blanks, '..', unicode; ids of 300+ bytes "
+        "-- all of them ordinary, pairwise distinct keys on the unchanged tree), broadcasts on feed and plain topics from an outside sender or 'as' a destination, messages "
+        "coming in from destinations, destinations dropping connections / going down (thorough: coming up again), over <=8 ids, "
         "6 streams (aggregated stream/a<-fa, stream/b<-fa+fb, a stream without feeds, two plain topics, the empty topic) and "
-        "fresh / shared / re-used / down destinations, all drawn from one PRNG; every rule change is followed by `await` barriers "
+        "fresh / shared / re-used / down destinations, all drawn from one PRNG; an add of an unusual id is mostly followed by a "
+        "dump of the listing, the client map and the hub registrations; every rule change is followed by `await` barriers "
         "(socket counts per destination) and mostly by a broadcast the superseded version was subscribed to; a case is "
         "non-trivial when it has a replace or delete of a live rule followed by a broadcast that some socket received; "
         "distinct = distinct op sequence")
@@ -22,10 +27,48 @@ P = "Relay.Props.C16"
 THEOREMS = [(f"Rwc.{n}", P) for n in
             ["one_live_per_id", "no_orphans", "hub_refines_cell", "live_is_latest_rule", "nothing_live_after_delete",
              "live_matches_rule", "nothing_after_supersede", "received_sub", "others_keep_flowing", "listing_exact",
-             "reserved_id_unreachable", "step_inv"]]
+             "reserved_id_unreachable", "id_taken_verbatim", "delete_taken_verbatim", "step_inv"]]
 
 CFG = {"stream/a": ["fa"], "stream/b": ["fa", "fb"]}
-IDS = ["r1", "r2", "r3", "", "deleteAll"]
+RESERVED = "deleteAll"
+PLAIN_IDS = ["r1", "r2", "r3", ""]
+# ids an implementation that canonicalises (trim, strip a leading slash, fold case, unescape, cut at NUL ...) around its
+# reserved-id guard would confuse with the reserved one; rwc.Hub.Run compares with == and stores the id verbatim, so on the
+# unchanged tree every one of them is an ordinary rule id, distinct from all others
+NEAR_RESERVED = [
+    "/deleteAll", " deleteAll", "deleteAll ", "\tdeleteAll", "deleteAll\t", "deleteAll\n", "\r\ndeleteAll", " deleteAll ",
+    " /deleteAll", "/ deleteAll", "//deleteAll", "deleteAll/", "./deleteAll", "/deleteAll/", "\u00a0deleteAll", "deleteAll\u3000",
+    "DeleteAll", "deleteall", "DELETEALL", "delete All", "deleteAl", "deleteAlll", "deleteAll\x00", "\x00deleteAll",
+    "%64eleteAll", "deleteAll?x=1", "deleteAll#", "dele\u200bteAll", "d\u0435leteAll", "\uff44eleteAll", " " * 64 + "deleteAll",
+    "deleteAll" + " " * 200,
+]
+OTHER_IDS = ["a/b", "a b", "x/../y", "..", "caf\u00e9", "cafe\u0301", "\u898f\u5247", "\U0001f642", "r1\x00", "0", "-", "2d",
+             "L" * 300, "deleteAll" * 40, "r/" * 150]
+TWIN_DECOR = [lambda i: " " + i, lambda i: i + " ", lambda i: "\t" + i, lambda i: i + "\n", lambda i: "/" + i, lambda i: i + "/",
+              lambda i: " /" + i, lambda i: "  " + i + "  ", lambda i: "\u00a0" + i, lambda i: i.upper(), lambda i: i.capitalize()]
+
+
+def twin(rng, i):
+    """an id that differs from `i` only by surrounding whitespace / a slash / case (never `i` itself, never the reserved id)"""
+    for _ in range(20):
+        j = rng.choice(TWIN_DECOR)(i)
+        if j != i and j != RESERVED:
+            return j
+    return i + " "
+
+
+def case_ids(rng):
+    """the ids of one case: 3-4 plain ones, the reserved id, 1-3 unusual ones (some of them twins of an id of the case)"""
+    plain = rng.sample(PLAIN_IDS, rng.choice([3, 4]))
+    odd = []
+    for _ in range(rng.choice([1, 2, 2, 3])):
+        q = rng.random()
+        if q < 0.45: j = rng.choice(NEAR_RESERVED)
+        elif q < 0.80: j = twin(rng, rng.choice(plain + odd))
+        else: j = rng.choice(OTHER_IDS)
+        if j not in plain and j not in odd and j != RESERVED:
+            odd.append(j)
+    return plain, odd
 STREAMS = ["stream/a", "stream/b", "stream/a", "stream/b", "plain", "plain", "plain", "p2", "stream/none", ""]
 TOPICS = ["fa", "fa", "fb", "plain", "plain", "p2", "", "stream/a"]
 
@@ -36,6 +79,13 @@ def topics_of(st):
 
 def s(h):
     return unhx(h).decode("utf-8", "replace")
+
+
+def show(h):
+    """an id (hex field) for a message: repr, long ones abbreviated"""
+    if h == "none": return "nothing"
+    x = s(h)
+    return repr(x) if len(x) <= 48 else f"{x[:20]!r}...{x[-12:]!r} ({len(x)} chars)"
 
 
 class Ref:
@@ -108,12 +158,18 @@ def parse(line):
     k = f[0]
     if k == "add" and len(f) == 4 and all(map(ishex, f[1:])): return f
     if k in ("del", "down", "up", "drop") and len(f) == 2 and ishex(f[1]): return f
+    if k == "dell" and len(f) == 2 and 1 <= len(f[1]) <= 6 and all(c in "0123456789" for c in f[1]): return f
     if k == "await" and (len(f) == 4 or (len(f) == 5 and f[4] == "slow")) and ishex(f[1]): return f
     if k == "bcast" and len(f) == 5 and f[2] == "ext" and ishex(f[1]) and ishex(f[3]): return f
     if k == "bcast" and len(f) == 6 and f[2] == "as" and ishex(f[1]) and ishex(f[3]) and ishex(f[4]): return f
     if k == "inject" and len(f) == 4 and ishex(f[1]) and ishex(f[2]): return f
     if k in ("conns", "rules") and len(f) == 1: return f
     return None
+
+
+def showl(entries):
+    """listing entries `id:stream:dest` / `id:dest` (hex fields) for a message"""
+    return "[" + ", ".join(":".join(show(y) for y in x.split(":")) for x in entries) + "]"
 
 
 def ms(x):
@@ -140,6 +196,13 @@ class RwcMode(vlib.Mode):
         ref = Ref()
         out = []
         ver = [0]
+        plain, odd = case_ids(rng)
+        ids = plain + [RESERVED] + odd
+        w_add = [22] * len(plain) + [8] + [16] * len(odd)
+        w_del = [20] * len(plain) + [20] + [14] * len(odd)
+        tag = {i: (i or "e") for i in plain}
+        tag[RESERVED] = RESERVED
+        tag.update({i: f"u{k + 1}" for k, i in enumerate(odd)})   # destination names stay short and printable
 
         def await_(d, slow=False):
             out.append(f"await {d} {ref.open_n(d)} {ref.acc.get(d, 0)}" + (" slow" if slow else ""))
@@ -168,7 +231,7 @@ class RwcMode(vlib.Mode):
             r = rng.random()
             cur = sorted({d for (_, d) in ref.rules.values()})
             if r < 0.42 or (not ref.rules and r < 0.8):
-                i = rng.choices(IDS, weights=[30, 25, 15, 12, 8])[0]
+                i = rng.choices(ids, weights=w_add)[0]
                 ih = hx(i)
                 st = hx(rng.choice(STREAMS))
                 old = ref.rules.get(ih)
@@ -185,16 +248,35 @@ class RwcMode(vlib.Mode):
                 elif q < 0.34:
                     d = hx("")
                 else:
-                    d = hx(f"{i or 'e'}-v{ver[0]}")                # every rule version its own destination
+                    d = hx(f"{tag[i]}-v{ver[0]}")                  # every rule version its own destination
                 out.append(f"add {ih} {st} {d}")
                 ref.add(ih, st, d)
                 if old is not None and s(ih) != "deleteAll" and old[1] != d:
                     await_(old[1])
                 await_(d)
+                if i in odd and rng.random() < 0.6:
+                    out.append("rules")                            # what is it stored / listed under?
                 if s(ih) != "deleteAll":
                     probe_old(old)
+            elif r < 0.55 and rng.random() < 0.3:
+                # delete by the id the implementation lists the rule under
+                k = rng.randrange(8)
+                listed = sorted(ref.rules)
+                out.append(f"dell {k}")
+                olds = []
+                if listed:
+                    ih = listed[k % len(listed)]
+                    olds = [ref.rules[ih]]
+                    ref.delete(ih)
+                for d in sorted({o[1] for o in olds}):
+                    await_(d)
+                if rng.random() < 0.5:
+                    out.append("rules")
+                probe_old(olds[0] if olds else None)
+                if ref.rules and rng.random() < 0.5:
+                    bcast()                                        # the others keep flowing
             elif r < 0.55:
-                i = rng.choices(IDS, weights=[28, 25, 15, 12, 20])[0]
+                i = rng.choices(ids, weights=w_del)[0]
                 ih = hx(i)
                 if i == "deleteAll":
                     olds = list(ref.rules.values())
@@ -237,7 +319,8 @@ class RwcMode(vlib.Mode):
             L = rng.choice([3, 6, 9, 12, 12])
             case = self.gen_case(rng, tier, L)
             if k % 16 == 7:   # a malformed stream mixed in
-                junk = ["frob", "add 7231", "add 7 7 7", "del", "bcast 6661 ext", "await zz 0 0", "inject 6431 6d", "add 72 zz 64"]
+                junk = ["frob", "add 7231", "add 7 7 7", "del", "bcast 6661 ext", "await zz 0 0", "inject 6431 6d", "add 72 zz 64",
+                        "dell", "dell -1", "dell 1x", "dell 6b", "dell 1234567", "dell +1", "dell 1 2"]
                 for _ in range(2):
                     case.insert(rng.randrange(len(case)), rng.choice(junk))
             cases.append(case)
@@ -263,6 +346,24 @@ class RwcMode(vlib.Mode):
             try:
                 if k == "add": ref.add(f[1], f[2], f[3])
                 elif k == "del": ref.delete(f[1])
+                elif k == "dell":
+                    # the harness deleted the k-th id of the implementation's own listing and says which one
+                    got = o.split("=", 1)[1] if o.startswith("deleted=") else None
+                    listed = sorted(ref.rules)
+                    exp = listed[int(f[1]) % len(listed)] if listed else "none"
+                    if got is None:
+                        fails.append(("bad-output", f"{l} -> {o}")); break
+                    if got == hx(RESERVED):
+                        fails.append(("reserved-id-present", f"{l}: the implementation lists a rule under the reserved id; deleting the rule "
+                                      f"by the id it is listed under takes down all {len(ref.rules)} rules in force"))
+                    elif got != "none" and got not in ref.rules:
+                        fails.append(("listed-id-never-added", f"{l}: the implementation lists id {show(got)}, which was never added "
+                                      f"(in force: {[show(x) for x in listed]})"))
+                    elif got != exp:
+                        fails.append(("listing-not-added-minus-deleted", f"{l}: entry {f[1]} of the sorted listing is {show(got)}, "
+                                      f"added minus deleted gives {show(exp)}"))
+                    else:
+                        if got != "none": ref.delete(got)
                 elif k == "down": ref.set_down(f[1])
                 elif k == "up": ref.set_up(f[1])
                 elif k == "drop": ref.drop(f[1])
@@ -291,16 +392,16 @@ class RwcMode(vlib.Mode):
                 elif k == "rules":
                     kv = dict(x.split("=", 1) for x in o.split())
                     rl, cl, rg = ms(kv["rules"]), ms(kv["clients"]), ms(kv["regs"])
-                    if any(x.split(":")[0] == hx("deleteAll") for x in rl + cl):
-                        fails.append(("reserved-id-present", f"the reserved id is listed: {o}"))
+                    if any(x.split(":")[0] == hx(RESERVED) for x in rl + cl):
+                        fails.append(("reserved-id-present", f"an entry is stored / listed under the reserved id: rules={showl(rl)} clients={showl(cl)}"))
                     exp_r = sorted(f"{i}:{st}:{d}" for i, (st, d) in ref.rules.items())
                     exp_c = sorted(f"{i}:{d}" for i, (st, d) in ref.rules.items())
                     if sorted(rl) != exp_r:
-                        fails.append(("listing-not-added-minus-deleted", f"listing {sorted(rl)} but added minus deleted is {exp_r}"))
+                        fails.append(("listing-not-added-minus-deleted", f"listing {showl(sorted(rl))} but added minus deleted is {showl(exp_r)}"))
                     if len({x.split(":")[0] for x in cl}) != len(cl):
                         fails.append(("more-than-one-client-per-id", f"clients {cl}"))
                     if sorted(cl) != exp_c:
-                        fails.append(("clients-not-matching-rules", f"clients {sorted(cl)} but rules in force are {exp_c}"))
+                        fails.append(("clients-not-matching-rules", f"clients {showl(sorted(cl))} but rules in force are {showl(exp_c)}"))
                     extra, missing = diff_ms(rg, ref.regs())
                     if extra: fails.append(("hub-registration-leak", f"still registered with the message hub: {extra}"))
                     if missing: fails.append(("hub-registration-missing", f"not registered with the message hub: {missing}"))
@@ -323,6 +424,9 @@ class RwcMode(vlib.Mode):
             elif f[0] == "del":
                 superseded |= (f[1] in ref.rules) or (s(f[1]) == "deleteAll" and bool(ref.rules))
                 ref.delete(f[1])
+            elif f[0] == "dell" and o.startswith("deleted=") and o != "deleted=none":
+                superseded |= o[8:] in ref.rules
+                if o[8:] != hx(RESERVED): ref.delete(o[8:])
             elif f[0] == "bcast" and superseded and o.startswith("rx=") and len(o) > 3:
                 return True
         return False
@@ -335,8 +439,9 @@ class RwcMode(vlib.Mode):
             if p is None:
                 outl.append(l + "   (malformed)"); continue
             k = f[0]
-            if k == "add": outl.append(f"add id={s(f[1])!r} stream={s(f[2])!r} dest={s(f[3])!r}")
-            elif k in ("del",): outl.append(f"delete id={s(f[1])!r}")
+            if k == "add": outl.append(f"add id={show(f[1])} stream={s(f[2])!r} dest={s(f[3])!r}")
+            elif k in ("del",): outl.append(f"delete id={show(f[1])}")
+            elif k == "dell": outl.append(f"delete the rule listed at position {f[1]} (mod the number listed) of the implementation's sorted listing, by the id it is listed under")
             elif k in ("down", "up", "drop"): outl.append(f"{k} dest={s(f[1])!r}")
             elif k == "await": outl.append(f"await dest={s(f[1])!r} open={f[2]} accepted={f[3]}" + (" slow" if len(f) == 5 else ""))
             elif k == "bcast" and f[2] == "ext": outl.append(f"broadcast topic={s(f[1])!r} from outside (expect {f[4]} receipts)")
